@@ -298,6 +298,55 @@ impl<'a> Gen<'a> {
         out
     }
 
+    /// Range literals whose stored fields lie on the boundary grid {1, 2, LAST-1, LAST} (plus, for
+    /// relative coordinates, the offsets that land on those positions from the cell (crow, ccol)):
+    ///  * rows: all (value, flag) pairs for row1 and row2, columns ordinary; columns likewise;
+    ///  * the sentinel values of the whole-row / whole-column tests (1 and LAST as stored values) in all
+    ///    2^4 flag combinations, alone, against the full grid of the other axis, on another sheet and on
+    ///    an unknown sheet (WrongRangeKind); each also as the argument of ROWS().
+    pub fn boundary_ranges(&self, crow: i32, ccol: i32) -> Vec<Node> {
+        const LR: i32 = 1048576;
+        const LC: i32 = 16384;
+        let axis = |last: i32, c: i32| -> Vec<(i32, bool)> {
+            let mut v: Vec<(i32, bool)> = vec![];
+            for x in [1, 2, last - 1, last] {
+                v.push((x, true));
+                v.push((x, false));            // the same number as an OFFSET
+                v.push((x - c, false));        // the offset that lands on position x
+            }
+            v.sort(); v.dedup(); v
+        };
+        let (rows, cols) = (axis(LR, crow), axis(LC, ccol));
+        let mk = |sheet: Option<(&str, Option<u32>)>, r1: (i32, bool), c1: (i32, bool), r2: (i32, bool), c2: (i32, bool)| -> Node {
+            match sheet {
+                Some((name, None)) => Node::WrongRangeKind { sheet_name: Some(name.to_string()), absolute_row1: r1.1, absolute_column1: c1.1, row1: r1.0, column1: c1.0,
+                    absolute_row2: r2.1, absolute_column2: c2.1, row2: r2.0, column2: c2.0 },
+                Some((name, Some(i))) => Node::RangeKind { sheet_name: Some(name.to_string()), sheet_index: i, absolute_row1: r1.1, absolute_column1: c1.1, row1: r1.0, column1: c1.0,
+                    absolute_row2: r2.1, absolute_column2: c2.1, row2: r2.0, column2: c2.0 },
+                None => Node::RangeKind { sheet_name: None, sheet_index: 0, absolute_row1: r1.1, absolute_column1: c1.1, row1: r1.0, column1: c1.0,
+                    absolute_row2: r2.1, absolute_column2: c2.1, row2: r2.0, column2: c2.0 },
+            }
+        };
+        // an ordinary pair on the other axis: two relative coordinates next to the cell, on the grid
+        let near = |c: i32, last: i32| -> ((i32, bool), (i32, bool)) { if c + 1 <= last { ((0, false), (1, false)) } else { ((-1, false), (0, false)) } };
+        let (ordr, ordc) = (near(crow, LR), near(ccol, LC));
+        let mut out = vec![];
+        for &r1 in &rows { for &r2 in &rows { out.push(mk(None, r1, ordc.0, r2, ordc.1)); } }
+        for &c1 in &cols { for &c2 in &cols { out.push(mk(None, ordr.0, c1, ordr.1, c2)); } }
+        for f in 0..16u32 {
+            let (r1, c1, r2, c2) = ((1, f & 1 != 0), (1, f & 2 != 0), (LR, f & 4 != 0), (LC, f & 8 != 0));
+            for sheet in [None, Some(("Second Sheet", Some(1))), Some(("Ghost", None))] { out.push(mk(sheet, r1, c1, r2, c2)); }
+            out.push(self.fun(Function::Rows, vec![mk(None, r1, c1, r2, c2)]));
+            // sentinel flags on one axis against the whole grid of the other
+            if f < 4 {
+                let (a, z) = (f & 1 != 0, f & 2 != 0);
+                for &c1 in &cols { for &c2 in &cols { out.push(mk(None, (1, a), c1, (LR, z), c2)); } }
+                for &r1 in &rows { for &r2 in &rows { out.push(mk(None, r1, (1, a), r2, (LC, z))); } }
+            }
+        }
+        out
+    }
+
     /// leaves of every kind in every spelling class, alone and as function arguments
     pub fn leaf_cases(&self) -> Vec<Node> {
         let mut l: Vec<Node> = vec![Node::BooleanKind(true), Node::BooleanKind(false), num(0.0), num(1.0), num(2.5), num(1e21), num(1.5e-7), num(123456789012345.0),
